@@ -9,7 +9,7 @@ using namespace hexasm;
 static const char *NAMES[] = {"A", "B", "C", "D", "f", "g", "main", "BR", "lab0", "_start"};
 
 extern "C" {
-// kinds: 0 label, 1 DATA, 2 imm instruction, 3 relative label ref, 4 absolute label ref, 5 OPR, 6 FUNC, 7 PROC
+// kinds: 0 label, 1 DATA, 2 imm instruction, 3 relative label ref, 4 absolute label ref, 5 OPR, 6 FUNC, 7 PROC, 8 gap (Padding directive of arg bytes)
 // tok[i]: hexasm::Token of the instruction (kinds 2..5: for 5 the OPR operand token); arg[i]: value or name id
 // info: 6 ints per directive of the final program (incl. the trailing PADDING): token, byteOffset, size, value, operandIsLabel, isAssembled
 __attribute__((noinline)) int l_run(int n, const int *kind, const int *tok, const int *arg, int *info, int emit, int text) {
@@ -24,6 +24,7 @@ __attribute__((noinline)) int l_run(int n, const int *kind, const int *tok, cons
       case 5: program.push_back(std::make_unique<InstrOp>(Token::OPR, static_cast<Token>(tok[i]))); break;
       case 6: program.push_back(std::make_unique<Func>(Token::FUNC, NAMES[arg[i]])); break;
       case 7: program.push_back(std::make_unique<Proc>(Token::PROC, NAMES[arg[i]])); break;
+      case 8: program.push_back(std::make_unique<Padding>(static_cast<unsigned>(arg[i]))); break;   // a gap of arg[i] bytes
     }
   }
   CodeGen cg(program);
